@@ -323,6 +323,19 @@ func asciiPasswords() []string {
 		out = append(out, string(enum.Counter(n, 'a')))
 	}
 	out = append(out, "Password", "PASSWORD", "password", "SecREt01")
+	// every printable ASCII character on its own and inside a word (the case fold of LM must treat each of
+	// the 26 letters alike, and nothing else), and every length up to 130 characters (the NT hash is MD4
+	// over 2n bytes: n = 28, 60, 92, 124 leave exactly 56 bytes in the last block)
+	for ch := 0x20; ch <= 0x7e; ch++ {
+		out = append(out, string(rune(ch)), "A"+string(rune(ch))+"b")
+	}
+	for n := 21; n <= 130; n++ {
+		b := make([]byte, n)
+		for i := range b {
+			b[i] = byte('a' + i%26)
+		}
+		out = append(out, string(b))
+	}
 	return out
 }
 
